@@ -586,3 +586,5 @@ func (fc *FuncCtx) ResultObj(i int) types.Object {
 	}
 	return nil
 }
+
+func ptrStr(o types.Object) string { return fmt.Sprintf("%p", o) }
